@@ -1,5 +1,5 @@
 (* Properties/C18.v — membership changes and restarts never wedge a node's control plane. *)
-From Verif Require Import Base.Prelude Proto.Control Proto.ControlProofs Generated.Facts.
+From Verif Require Import Base.Prelude Proto.Control Proto.ControlProofs Proto.Locks Proto.LockOrder Proto.LockOrderProofs Generated.Facts.
 
 Definition fb (f : fact bool) (dflt : bool) : bool := match f with Known b => b | Unrecognised _ => dflt end.
 (* the hand-off design read off the current source (an unrecognised shape counts as the unsafe choice) *)
@@ -11,7 +11,10 @@ Definition design_now : design :=
      d_handler_holds := negb (fb handler_copies_partitions false && fb proposal_wait_lock_free false) |}.
 
 Lemma C18_facts_ok :
-  design_now = design_safe /\ proposal_checks_group = Known true /\ loop_owns_watched_set = Known true.
+  design_now = design_safe /\ proposal_checks_group = Known true /\ loop_owns_watched_set = Known true /\
+  (* the membership book's locks are taken in one order everywhere: address book, then connection cache, then the
+     subscriber list (the "held -> acquired" relation of cluster/conn.go has no cycle) *)
+  conn_lock_order_acyclic = Known true.
 Proof. repeat split; reflexivity. Qed.
 
 (* for every backlog of membership changes and catalogue entries, every number of proposals the allocator makes for
@@ -43,6 +46,37 @@ Proof. exact queues_only_refuted. Qed.
 Example C18_nonvacuous : wf (init [ZConf 2; ZUpd 3]) /\ measure design_now (init [ZConf 2; ZUpd 3]) = 23.
 Proof. split; reflexivity. Qed.
 
+
+(* the membership book itself (cluster/conn.go): goroutines that apply membership changes, dial peers, read the member
+   list and subscribe take its read/write locks nested, but always in rank order (the fact above).  For any number of
+   goroutines running any programs that respect that discipline, with or without writer preference, in every reachable
+   state: unless all have finished, one of them can take a step — the book cannot deadlock … *)
+Theorem C18_book_locks_live : forall wpref progs sched ts, Forall (fun p => okprog [] p) progs ->
+  orun wpref (ostart progs) sched = Some ts ->
+  existsb (fun t => negb (ofinished t)) ts = true -> exists i, ostep wpref ts i <> None.
+Proof. exact ordered_locks_live. Qed.
+(* … whereas two goroutines taking two of its locks in opposite orders (a removal holding the address lock and asking
+   for the cache lock, a dial holding the cache lock and asking for the address lock) can block each other for ever *)
+Theorem C18_opposite_orders_refuted :
+  let progs := [[Acq 0 MW; Acq 1 MW; Rel 1; Rel 0]; [Acq 1 MW; Acq 0 MR; Rel 0; Rel 1]] in
+  exists ts, orun true (ostart progs) [0; 1] = Some ts /\ ostep true ts 0 = None /\ ostep true ts 1 = None /\ forallb ofinished ts = false.
+Proof. exact opposite_orders_deadlock. Qed.
+(* the discipline is satisfiable: the programs of RemoveNode (address lock, cache lock, subscriber list), AddNode, Dial
+   and a reader respect it, and a schedule runs them to the end *)
+Example C18_book_programs_ok :
+  let remove := [Acq 0 MW; Acq 1 MW; Acq 2 MR; Wk; Rel 2; Rel 1; Rel 0] in
+  let add := [Acq 0 MW; Acq 2 MR; Rel 2; Rel 0] in
+  let dial := [Acq 1 MR; Rel 1; Acq 0 MR; Rel 0; Wk; Acq 1 MW; Rel 1] in
+  let ids := [Acq 0 MR; Wk; Rel 0] in
+  Forall (fun p => okprog [] p) [remove; add; dial; ids] /\
+  (exists sched ts, orun true (ostart [remove; add; dial; ids]) sched = Some ts /\ forallb ofinished ts = true).
+Proof.
+  split.
+  - repeat (apply Forall_cons; [cbn; repeat split; intros; cbn in *; intuition lia|]). apply Forall_nil.
+  - exists (repeat 0 7 ++ repeat 1 4 ++ repeat 2 7 ++ repeat 3 3)%nat. eexists. split; [vm_compute; reflexivity|reflexivity].
+Qed.
+
 Print Assumptions C18_no_wedge.
+Print Assumptions C18_book_locks_live.
 Print Assumptions C18_bounded_work.
 Print Assumptions C18_backlog_applied.
